@@ -950,3 +950,43 @@ pub fn xpath_corpus(doc_index: usize, expr: &str, expected: &str) -> Outcome {
     };
     Outcome { observed, expected: expected.to_string(), note: format!("doc {}: {}", doc_index, corpus_unesc(XPATH_CORPUS_DOCS.lines().nth(doc_index).unwrap_or(""))) }
 }
+
+// ------------------------------------------------------------------------------------------------
+// C11: the attribute corpus (tools/gen_attr_corpus.py): value literals x declared types x default kinds, with the attribute list
+// three independent parsers (expat, the JDK DOM parser, libxml2) agree on.  Items "name=value" + S (specified) / D (defaulted).
+
+pub const ATTR_CORPUS: &str = include_str!("../data/attr_corpus.txt");
+
+pub fn info_attr_corpus(doc: &str, expected: &str) -> Outcome {
+    use xml_dom::Attr;
+    let observed = match catch_unwind(AssertUnwindSafe(|| {
+        let d = match xml_dom::XmlDocument::from_raw(doc) {
+            Ok((rest, d)) if rest.is_empty() => d,
+            _ => return "not accepted".to_string(),
+        };
+        let r = match d.document_element() {
+            Ok(r) => r,
+            Err(_) => return "no document element".to_string(),
+        };
+        let mut items = vec![];
+        if let Some(attrs) = xml_dom::AsNode::as_node(&r).attributes() {
+            for a in attrs.iter() {
+                let v = match a.value() {
+                    Ok(v) => crate::esc(&v),
+                    Err(e) => format!("<value error: {:?}>", e),
+                };
+                items.push(format!("{}={}{}", a.node_name(), v, if a.specified() { "S" } else { "D" }));
+            }
+        }
+        items.sort();
+        if items.is_empty() {
+            "-".to_string()
+        } else {
+            items.join("\u{1}")
+        }
+    })) {
+        Ok(s) => s,
+        Err(e) => format!("PANIC({})", e.downcast_ref::<&str>().map(|s| s.to_string()).or_else(|| e.downcast_ref::<String>().cloned()).unwrap_or_default()),
+    };
+    Outcome { observed: observed.replace('\u{1}', " | "), expected: expected.replace('\u{1}', " | "), note: String::new() }
+}
